@@ -33,6 +33,27 @@ chk("C03", "enum",
     "Alphabet finite; trusts reflect, encoding/gob and the canon.",
     "DESIGN.md §3 C03")
 
+chk("C10", "hist",
+    "exhaustive enumeration of addressing histories (all assignments of <= k entries to the addressing slots, then two Recipients() calls) on the implementation, in lock-step with a reference model over (identity, presentation)",
+    "All assignments of at most 3 (quick) / 4 (thorough) entries drawn from 10 presentations of 3 identities and nil to to/cc/bto/bcc/audience (+actor, +Block object) are executed on a fresh value of each of the 13 types with Recipients() (and Block), and the returned list, the four lists afterwards and idempotence are compared with the reference de-duplication.",
+    "Reading D5 (audience on the value is not judged); lists longer than the bound are outside.",
+    "DESIGN.md §3 C10")
+chk("C13", "hist",
+    "explicit-state exploration of operation histories on the real containers in lock-step with a reference insertion-ordered set (depth-bounded, exhaustive, states de-duplicated by canonical member sequence)",
+    "Every history over Append/Append(variadic)/Contains/Remove up to depth 3-4 (quick) / 4-5 (thorough) with a mixed-shape pool of distinct identities is replayed on a fresh container of each of the six kinds from two start states; Count, Collection and Contains(every pool item) are compared after every step.",
+    "Reading D7 (no Remove for IRIs); distinct identities only; histories longer than the bound are outside.",
+    "DESIGN.md §3 C13")
+chk("C14", "enum",
+    "exhaustive enumeration of all ordered pairs of a 2304-IRI grid x 2 scheme modes against a reference normaliser; reflexivity/symmetry and list membership on 42 non-URL strings",
+    "IRI.Equals is compared with an independent normaliser on every ordered pair of the complete grid (10.6M evaluations), which implies reflexivity, symmetry and transitivity on the grid; IRIs.Contains / ItemCollection.Contains must agree with it.",
+    "Grid alphabet (3 schemes, 4 hosts, 8 paths, 8 queries, 3 fragments); queries in one letter case.",
+    "DESIGN.md §3 C14")
+chk("C19", "hist",
+    "explicit-state exploration of Set/Append/Add histories on the real NaturalLanguageValues in lock-step with a reference ordered pair list; complete pair matrix for Equals",
+    "All histories of depth <= 4 (quick) / 5 (thorough) over 18 operations from 4 start states, all observers after every step; all 6241 ordered pairs of lists without repeated tags for Equals.",
+    "3 tags (incl. the nil tag) and 2 texts; for Set on a repeated tag only the stated clauses are demanded.",
+    "DESIGN.md §3 C19")
+
 manifest = {
     "version": 1,
     "setup_cmd": "./setup.sh",
